@@ -15,11 +15,13 @@ import (
 // GraphBinCase: a dependency graph run through the CLI, with the first task selected by
 // name, implicitly as the default task, or as the user-defined clean task of `--clean`.
 type GraphBinCase struct {
-	N     int      `json:"n"`
-	Edges [][2]int `json:"edges"` // i depends on j
-	Via   string   `json:"via"`   // name default clean
-	Undef int      `json:"undef"` // task that also depends on an undefined name (-1: none)
-	Flags []string `json:"flags"`
+	// ProjDir names the directory holding the spokfile ("" = proj)
+	ProjDir string   `json:"proj_dir,omitempty"`
+	N       int      `json:"n"`
+	Edges   [][2]int `json:"edges"` // i depends on j
+	Via     string   `json:"via"`   // name default clean
+	Undef   int      `json:"undef"` // task that also depends on an undefined name (-1: none)
+	Flags   []string `json:"flags"`
 }
 
 var gbNames = []string{"alpha", "bravo", "charlie", "delta"}
@@ -49,6 +51,12 @@ func (c GraphBinCase) source() string {
 }
 
 func genGraphBin(t *rapid.T) GraphBinCase {
+	c := genGraphBinBody(t)
+	c.ProjDir = genProjDir(t)
+	return c
+}
+
+func genGraphBinBody(t *rapid.T) GraphBinCase {
 	n := rapid.IntRange(1, 4).Draw(t, "n")
 	c := GraphBinCase{N: n, Undef: -1}
 	acyclic := rapid.IntRange(0, 3).Draw(t, "acyclic") != 0
@@ -71,7 +79,7 @@ func genGraphBin(t *rapid.T) GraphBinCase {
 }
 
 func execGraphBin(s *ev.Shard, b *sandbox.Box, c GraphBinCase) *rp.Fail {
-	if err := b.Reset(); err != nil {
+	if err := b.ResetAs(c.ProjDir); err != nil {
 		return &rp.Fail{Sig: "harness", Msg: err.Error()}
 	}
 	src := c.source()
